@@ -328,3 +328,59 @@ func g1RunRules(era string, tx common.Transaction, slot uint64, ls common.Ledger
 	sort.Strings(res)
 	return res
 }
+
+// ---- purity of validation ------------------------------------------------------
+
+// g1OutSnap renders everything value-related an output reports (coin and every asset
+// quantity, sorted), read through the public accessors.
+func g1OutSnap(o common.TransactionOutput) string {
+	if o == nil {
+		return "nil"
+	}
+	var sb strings.Builder
+	if a := o.Amount(); a != nil {
+		sb.WriteString(a.String())
+	}
+	if as := o.Assets(); as != nil {
+		ents := []string{}
+		for _, pol := range as.Policies() {
+			for _, name := range as.Assets(pol) {
+				q := as.Asset(pol, name)
+				ents = append(ents, fmt.Sprintf("%x.%x=%s", pol.Bytes(), name, bigStr(q)))
+			}
+		}
+		sort.Strings(ents)
+		sb.WriteString("{" + strings.Join(ents, ",") + "}")
+	}
+	return sb.String()
+}
+
+// g1TxSnap renders what a transaction reports about its value: stored bytes, fee, every
+// output, every produced UTxO, the mint field; plus the given ledger-state UTxOs.
+func g1TxSnap(tx common.Transaction, utxos []common.Utxo) string {
+	var sb strings.Builder
+	fmt.Fprintf(&sb, "cbor=%x fee=%s", common.Blake2b256Hash(tx.Cbor()).Bytes(), bigStr(tx.Fee()))
+	for i, o := range tx.Outputs() {
+		fmt.Fprintf(&sb, " o%d=%s", i, g1OutSnap(o))
+	}
+	func() {
+		defer func() { _ = recover() }()
+		for i, u := range tx.Produced() {
+			fmt.Fprintf(&sb, " p%d=%s", i, g1OutSnap(u.Output))
+		}
+	}()
+	if m := tx.AssetMint(); m != nil {
+		ents := []string{}
+		for _, pol := range m.Policies() {
+			for _, name := range m.Assets(pol) {
+				ents = append(ents, fmt.Sprintf("%x.%x=%s", pol.Bytes(), name, bigStr(m.Asset(pol, name))))
+			}
+		}
+		sort.Strings(ents)
+		sb.WriteString(" mint{" + strings.Join(ents, ",") + "}")
+	}
+	for i, u := range utxos {
+		fmt.Fprintf(&sb, " u%d=%s", i, g1OutSnap(u.Output))
+	}
+	return sb.String()
+}
